@@ -522,6 +522,7 @@ class ExtensionOp(DataflowOp):
             extension=self.extension,
             op_name=self.name,
             signature=self.signature.deserialize(),
+            description=self.description,
             args=deser_it(self.args),
         )
 
